@@ -704,6 +704,17 @@ fn remove_tuples_from_statement(stmt: Statement) -> Result<Statement, Box<Report
                     }
                     LogArgument::LogExp(exp) => {
                         let mut sep_args = separate_tuple_for_log_call(vec![exp]);
+                        for arg in &sep_args {
+                            // Only top-level tuples can be flattened.
+                            if let LogArgument::LogExp(exp) = arg {
+                                if exp.contains_tuple(None) {
+                                    return Err(TupleError::boxed_report(
+                                        &meta,
+                                        "Tuples cannot be used inside the expressions of a log statement.",
+                                    ));
+                                }
+                            }
+                        }
                         new_args.append(&mut sep_args);
                     }
                 }
